@@ -38,3 +38,28 @@ func createFakeInvoiceMsat(msat uint64) (string, string, string, error) {
 	})
 	return invoiceStr, preimage, hash, err
 }
+
+// forgedInvoiceMsat builds a validly encoded invoice of msat millisatoshi that carries the payment hash of somebody else's
+// invoice (anybody who has seen an invoice can do this: the hash is public and decodepay does not check the signer).
+func forgedInvoiceMsat(hashHex string, msat uint64) (string, error) {
+	hb, err := hex.DecodeString(hashHex)
+	if err != nil || len(hb) != 32 {
+		return "", err
+	}
+	var paymentHash [32]byte
+	copy(paymentHash[:], hb)
+	invoice, err := zpay32.NewInvoice(&chaincfg.SigNetParams, paymentHash, time.Now(),
+		zpay32.Amount(lnwire.MilliSatoshi(msat)), zpay32.Description("verif-forged"))
+	if err != nil {
+		return "", err
+	}
+	return invoice.Encode(zpay32.MessageSigner{
+		SignCompact: func(msg []byte) ([]byte, error) {
+			key, err := secp256k1.GeneratePrivateKey()
+			if err != nil {
+				return []byte{}, err
+			}
+			return ecdsa.SignCompact(key, msg, true), nil
+		},
+	})
+}
